@@ -18,7 +18,8 @@ raw garbage, truncated tail) x random schedule (chunks of 1..11 bytes mostly, No
 after each event) x random small source (payload sets of all types, 0..3 earlier serials, diff window, ready or not). Oracle: \
 (1) output minus Serial Notify PDUs == output of the reference schedule (one chunk, no notify) on a fresh server; (2) output \
 parses into whole PDUs with an independent parser, no Serial Notify between Cache Response and End of Data, #Serial Notify <= \
-#Notify events; (3) on the reference output, for the stream prefix up to the first malformed PDU every complete well-formed \
+#Notify events; (3) on the reference output, for the stream prefix up to the first malformed PDU (a reset query refused for its version \
+is header-only and does not end the prefix) every complete well-formed \
 query has exactly the expected response (Cache Response, payload multiset per version, End of Data with state and timing / \
 Cache Reset / Error 2 when not ready) and the first malformed one an Error PDU. Non-trivial = schedule with >=1 chunk boundary \
 strictly inside a PDU and >=1 Notify. splits: complete enumeration of every single-PDU stream of a fixed list (25 streams) x \
@@ -223,6 +224,16 @@ fn check_model(c: &Case, src: &RefSource, reference: &[RawPdu], obs: &mut Obs) -
             if let Some(code) = code {
                 ensure!(p.field == code, "PDU #{} ({}): Error code {} expected {}", i, what, p.field, code);
                 ensure!(p.version == 2, "PDU #{} ({}): Error PDU carries version {}, expected the maximum supported (2)", i, what, p.version);
+            }
+            // A reset query is nothing but its 8-octet header: when it is refused for
+            // its version the stream is still in sync, the server keeps the
+            // connection (no version has been negotiated / the negotiated one
+            // stays), and every following well-formed query is still owed its
+            // response. For all other malformed PDUs the number of octets the
+            // server consumes is unspecified, so the model stops there.
+            if matches!(q, Q::Reset { .. }) {
+                obs.label("model-continues-after-refused-reset");
+                continue;
             }
             complete = false; // behaviour afterwards is unspecified
             break;
